@@ -12,12 +12,15 @@ pub enum Cw20QueryMsg { Balance { address: String }, TokenInfo {} }
 // answers of the factory / pair queries (pair_of, sim_return, ...) -- ASSUMED (chain semantics), one place
 pub uninterp spec fn answer<T>(w: World, req: QueryRequest) -> T;
 pub uninterp spec fn query_ok(w: World, req: QueryRequest) -> bool;
+// `chain_world(w)`: w is the state of an actual chain (balances fit 128 bits, one answer per request, ...). Only QuerierWrapper::query establishes it;
+// every axiom below is conditional on it, so nothing can be derived about a World constructed inside a proof
+pub uninterp spec fn chain_world(w: World) -> bool;
 impl QuerierWrapper {
     #[verifier::external_body] pub fn query<T>(&self, request: &QueryRequest) -> (r: StdResult<T>)
 //%if A
-        ensures query_ok(self.world(), *request) ==> r is Ok, r is Ok ==> query_ok(self.world(), *request) && r->Ok_0 == answer::<T>(self.world(), *request)
+        ensures chain_world(self.world()), query_ok(self.world(), *request) ==> r is Ok, r is Ok ==> query_ok(self.world(), *request) && r->Ok_0 == answer::<T>(self.world(), *request)
 //%else
-        ensures r is Ok ==> query_ok(self.world(), *request) && r->Ok_0 == answer::<T>(self.world(), *request)
+        ensures chain_world(self.world()), r is Ok ==> query_ok(self.world(), *request) && r->Ok_0 == answer::<T>(self.world(), *request)
 //%endif
     { unimplemented!() }
 }
@@ -29,32 +32,32 @@ pub uninterp spec fn pair_self_report(w: World, pair: Seq<char>) -> PairInfo;   
 
 // bank module: Balance{address, denom} answers the ledger balance
 pub broadcast proof fn axiom_q_bank_balance(w: World, address: String, denom: String)
-    ensures (#[trigger] answer::<BalanceResponse>(w, QueryRequest::Bank(BankQuery::Balance { address: address, denom: denom }))).amount.amount.0 as nat == w.bank_bal(address@, denom@) { admit(); }
+    ensures chain_world(w) ==> ((#[trigger] answer::<BalanceResponse>(w, QueryRequest::Bank(BankQuery::Balance { address: address, denom: denom }))).amount.amount.0 as nat == w.bank_bal(address@, denom@)) { admit(); }
 // cw20 token: Balance{address} answers the holder's ledger balance, TokenInfo{} the supply and the decimals
 pub broadcast proof fn axiom_q_cw20_balance(w: World, token: String, address: String)
-    ensures (#[trigger] answer::<Cw20BalanceResponse>(w, QueryRequest::Wasm(WasmQuery::Smart { contract_addr: token, msg: bin_of(Cw20QueryMsg::Balance { address }) }))).balance.0 as nat == w.tok_bal(token@, address@) { admit(); }
+    ensures chain_world(w) ==> ((#[trigger] answer::<Cw20BalanceResponse>(w, QueryRequest::Wasm(WasmQuery::Smart { contract_addr: token, msg: bin_of(Cw20QueryMsg::Balance { address }) }))).balance.0 as nat == w.tok_bal(token@, address@)) { admit(); }
 pub broadcast proof fn axiom_q_cw20_info(w: World, token: String)
-    ensures ({ let t = #[trigger] answer::<TokenInfoResponse>(w, QueryRequest::Wasm(WasmQuery::Smart { contract_addr: token, msg: bin_of(Cw20QueryMsg::TokenInfo {}) }));
+    ensures chain_world(w) ==> (({ let t = #[trigger] answer::<TokenInfoResponse>(w, QueryRequest::Wasm(WasmQuery::Smart { contract_addr: token, msg: bin_of(Cw20QueryMsg::TokenInfo {}) }));
         t.total_supply.0 as nat == w.tok_supply(token@)
-        && (query_ok(w, QueryRequest::Wasm(WasmQuery::Smart { contract_addr: token, msg: bin_of(Cw20QueryMsg::TokenInfo {}) })) ==> w.tok_decimals.dom().contains(token@) && t.decimals == w.tok_decimals[token@]) }) { admit(); }
+        && (query_ok(w, QueryRequest::Wasm(WasmQuery::Smart { contract_addr: token, msg: bin_of(Cw20QueryMsg::TokenInfo {}) })) ==> w.tok_decimals.dom().contains(token@) && t.decimals == w.tok_decimals[token@]) })) { admit(); }
 //%if A
 // no-abort mode (C20): balance and token_info queries about an existing token are answered
-pub broadcast proof fn axiom_q_bank_ok(w: World, address: String, denom: String) ensures #[trigger] query_ok(w, QueryRequest::Bank(BankQuery::Balance { address: address, denom: denom })) { admit(); }
-pub broadcast proof fn axiom_q_cw20_balance_ok(w: World, token: String, address: String) ensures #[trigger] query_ok(w, QueryRequest::Wasm(WasmQuery::Smart { contract_addr: token, msg: bin_of(Cw20QueryMsg::Balance { address }) })) { admit(); }
-pub broadcast proof fn axiom_q_cw20_info_ok(w: World, token: String) ensures #[trigger] query_ok(w, QueryRequest::Wasm(WasmQuery::Smart { contract_addr: token, msg: bin_of(Cw20QueryMsg::TokenInfo {}) })) { admit(); }
+pub broadcast proof fn axiom_q_bank_ok(w: World, address: String, denom: String) ensures chain_world(w) ==> (#[trigger] query_ok(w, QueryRequest::Bank(BankQuery::Balance { address: address, denom: denom }))) { admit(); }
+pub broadcast proof fn axiom_q_cw20_balance_ok(w: World, token: String, address: String) ensures chain_world(w) ==> (#[trigger] query_ok(w, QueryRequest::Wasm(WasmQuery::Smart { contract_addr: token, msg: bin_of(Cw20QueryMsg::Balance { address }) }))) { admit(); }
+pub broadcast proof fn axiom_q_cw20_info_ok(w: World, token: String) ensures chain_world(w) ==> (#[trigger] query_ok(w, QueryRequest::Wasm(WasmQuery::Smart { contract_addr: token, msg: bin_of(Cw20QueryMsg::TokenInfo {}) }))) { admit(); }
 //%endif
 // factory / pair queries: the axioms only name the answers
 pub broadcast proof fn axiom_q_native_decimals(w: World, factory: String, denom: String)
-    ensures query_ok(w, QueryRequest::Wasm(WasmQuery::Smart { contract_addr: factory, msg: bin_of(FactoryQueryMsg::NativeTokenDecimals { denom }) }))
-        ==> native_decimals_of(w, factory@, denom@) == Some((#[trigger] answer::<NativeTokenDecimalsResponse>(w, QueryRequest::Wasm(WasmQuery::Smart { contract_addr: factory, msg: bin_of(FactoryQueryMsg::NativeTokenDecimals { denom }) }))).decimals) { admit(); }
+    ensures chain_world(w) ==> (query_ok(w, QueryRequest::Wasm(WasmQuery::Smart { contract_addr: factory, msg: bin_of(FactoryQueryMsg::NativeTokenDecimals { denom }) }))
+        ==> native_decimals_of(w, factory@, denom@) == Some((#[trigger] answer::<NativeTokenDecimalsResponse>(w, QueryRequest::Wasm(WasmQuery::Smart { contract_addr: factory, msg: bin_of(FactoryQueryMsg::NativeTokenDecimals { denom }) }))).decimals)) { admit(); }
 pub broadcast proof fn axiom_q_pair(w: World, factory: String, asset_infos: [AssetInfo; 2])
-    ensures (#[trigger] answer::<PairInfo>(w, QueryRequest::Wasm(WasmQuery::Smart { contract_addr: factory, msg: bin_of(FactoryQueryMsg::Pair { asset_infos }) }))).contract_addr@ == pair_of(w, factory@, asset_infos[0], asset_infos[1]) { admit(); }
+    ensures chain_world(w) ==> ((#[trigger] answer::<PairInfo>(w, QueryRequest::Wasm(WasmQuery::Smart { contract_addr: factory, msg: bin_of(FactoryQueryMsg::Pair { asset_infos }) }))).contract_addr@ == pair_of(w, factory@, asset_infos[0], asset_infos[1])) { admit(); }
 pub broadcast proof fn axiom_q_sim(w: World, pair: String, offer_asset: Asset)
-    ensures (#[trigger] answer::<SimulationResponse>(w, QueryRequest::Wasm(WasmQuery::Smart { contract_addr: pair, msg: bin_of(PairQueryMsg::Simulation { offer_asset }) }))).return_amount == sim_return(w, pair@, offer_asset) { admit(); }
+    ensures chain_world(w) ==> ((#[trigger] answer::<SimulationResponse>(w, QueryRequest::Wasm(WasmQuery::Smart { contract_addr: pair, msg: bin_of(PairQueryMsg::Simulation { offer_asset }) }))).return_amount == sim_return(w, pair@, offer_asset)) { admit(); }
 pub broadcast proof fn axiom_q_rev(w: World, pair: String, ask_asset: Asset)
-    ensures (#[trigger] answer::<ReverseSimulationResponse>(w, QueryRequest::Wasm(WasmQuery::Smart { contract_addr: pair, msg: bin_of(PairQueryMsg::ReverseSimulation { ask_asset }) }))).offer_amount == rev_offer(w, pair@, ask_asset) { admit(); }
+    ensures chain_world(w) ==> ((#[trigger] answer::<ReverseSimulationResponse>(w, QueryRequest::Wasm(WasmQuery::Smart { contract_addr: pair, msg: bin_of(PairQueryMsg::ReverseSimulation { ask_asset }) }))).offer_amount == rev_offer(w, pair@, ask_asset)) { admit(); }
 pub broadcast proof fn axiom_q_self_report(w: World, pair: String)
-    ensures #[trigger] answer::<PairInfo>(w, QueryRequest::Wasm(WasmQuery::Smart { contract_addr: pair, msg: bin_of(PairQueryMsg::Pair {}) })) == pair_self_report(w, pair@) { admit(); }
+    ensures chain_world(w) ==> (#[trigger] answer::<PairInfo>(w, QueryRequest::Wasm(WasmQuery::Smart { contract_addr: pair, msg: bin_of(PairQueryMsg::Pair {}) })) == pair_self_report(w, pair@)) { admit(); }
 pub broadcast group group_chain_queries {
     axiom_q_bank_balance, axiom_q_cw20_balance, axiom_q_cw20_info, axiom_q_native_decimals, axiom_q_pair, axiom_q_sim, axiom_q_rev, axiom_q_self_report,
 //%if A
